@@ -87,7 +87,7 @@ package cache
 //@   props C11 C10 C14
 //@   requires roOK(fs) && f != nil && info != nil
 //@   modifies world()
-//@   ensures "complete-or-error" [C11] iff(err == nil, old(copyOK(world(), fs, name, f, info)))
+//@   ensures "complete-or-error" [C11 C10] iff(err == nil, old(copyOK(world(), fs, name, f, info)))
 //@   ensures "open-error" [C11] implies(old(cfMkErr(world(), fs, name)) == nil && old(cfOpenErr(world(), fs, name, info)) != nil, err == old(cfOpenErr(world(), fs, name, info)))
 //@   ensures "copy-error" [C11] implies(old(cfMkErr(world(), fs, name)) == nil && old(cfOpenErr(world(), fs, name, info)) == nil && implements(old(cfDest(world(), fs, name, info)), io.Writer) &&
 //@                     old(cfCopyErr(world(), fs, name, f, info)) != nil, err == old(cfCopyErr(world(), fs, name, f, info)))
